@@ -181,6 +181,10 @@ func (e *KnowledgeBase) MakeCatalog() *Catalog {
 		MemoryExpressionAtomVariableMap: nil,
 	}
 	for _, v := range e.RuleEntries {
+		if v.Deleted {
+			// a removed rule must not come back to life when the catalog is loaded.
+			continue
+		}
 		v.MakeCatalog(catalog)
 	}
 	e.WorkingMemory.MakeCatalog(catalog)
